@@ -1,4 +1,5 @@
 import OpusModel.Repack
+import OpusModel.RepackInPlace
 import Driver.Util
 import Driver.SuiteExt
 /- Suite `repack`: src/repacketizer.c.
@@ -10,7 +11,9 @@ import Driver.SuiteExt
    repack unpad x<packet>                             → OK <ret> x<bytes> | err
    repack mspad x<packet> <new_len> <nb_streams>      → OK x<bytes> | err
    repack msunpad x<packet> <nb_streams>              → OK <ret> x<bytes> | err
-   repack padimpl x<packet> <new_len> <pad> <exts>    → OK <ret> x<bytes> | err            -/
+   repack padimpl x<packet> <new_len> <pad> <exts>    → OK <ret> x<bytes> | err
+   repack unpadip x<packet>                           → OK <ret> x<whole buffer, len bytes> | err   (single-array model)
+   repack msunpadip x<packet> <nb_streams>            → OK <ret> x<whole buffer, len bytes> | err            -/
 namespace Driver.SuiteRepack
 open Opus Opus.Repack Driver
 
@@ -61,6 +64,14 @@ def handle : List String → String
     match parseHex hex with
     | some bs => resStr (fun o => s!"OK {o.length} {toHex o}") (packetUnpad bs)
     | none => "bad-op"
+  | ["unpadip", hex] =>
+    match parseHex hex with
+    | some bs => resStr (fun (o : Bytes × Nat) => s!"OK {o.2} {toHex o.1}") (packetUnpadInPlace bs)
+    | none => "bad-op"
+  | ["msunpadip", hex, ns] =>
+    match parseHex hex, parseInt ns with
+    | some bs, some ns => resStr (fun (o : Bytes × Nat) => s!"OK {o.2} {toHex o.1}") (msUnpadInPlace bs ns)
+    | _, _ => "bad-op"
   | ["mspad", hex, nl, ns] =>
     match parseHex hex, parseInt nl, parseInt ns with
     | some bs, some nl, some ns => resStr (fun o => "OK " ++ toHex o) (msPad bs nl ns)
